@@ -5,6 +5,7 @@ package main
 // fence group against the reference state machine (internal/h2peer/refsm.go).
 
 import (
+	"bytes"
 	"encoding/hex"
 	"fmt"
 	"io"
@@ -89,6 +90,7 @@ type pend struct {
 
 type stats struct {
 	zombieReturns       int64
+	slotReuse           int64
 	frames              map[string]int64
 	kinds               map[string]int64
 	rst                 map[string]int64
@@ -142,8 +144,12 @@ type conn struct {
 	overLimit string
 	// manualZombies: handlers of reset streams are released by the script, one at a time
 	manualZombies bool
-	checkedSt     int
-	maxStarted    uint32
+	bigMode       map[uint32]bool // streams requested with x-mode: big (their body is not compared here)
+	// noFenceRelease: the next request is to follow the END_STREAM of the released response at once: the
+	// events so far are fed to the reference without a PING round trip
+	noFenceRelease bool
+	checkedSt      int
+	maxStarted     uint32
 
 	cursor     int
 	pending    []pend
@@ -213,6 +219,8 @@ func (c *conn) h(sid uint32) *hstate {
 	return h
 }
 
+var bigBody = bytes.Repeat([]byte("b"), 4200)
+
 // ServeHTTP is the user handler: recorder + gate.
 func (c *conn) ServeHTTP(w http.ResponseWriter, r *http.Request) {
 	sid64, _ := strconv.ParseUint(r.Header.Get("X-Sid"), 10, 32)
@@ -248,6 +256,12 @@ func (c *conn) ServeHTTP(w http.ResponseWriter, r *http.Request) {
 	}
 	w.Header().Set("X-Resp", strconv.Itoa(int(sid)))
 	w.WriteHeader(200)
+	if sid%6 == 1 || r.Header.Get("X-Mode") == "big" {
+		// a final DATA frame that does not fit the server's 4 KiB write buffer leaves through its asynchronous
+		// writer: the stream is closed a moment after the client has seen END_STREAM
+		w.Write(bigBody[:4086+int(sid/6)%11])
+		return
+	}
 	w.Write([]byte("ok"))
 }
 
@@ -384,7 +398,9 @@ func (c *conn) exec(s Step) {
 		c.fenceAndJudge()
 		return
 	case "release":
+		c.noFenceRelease = s.NoFence
 		c.release(s.SID)
+		c.noFenceRelease = false
 		return
 	}
 	if c.broken {
@@ -1106,13 +1122,21 @@ func (c *conn) release(sid uint32) {
 	if c.held {
 		return
 	}
+	if c.noFenceRelease {
+		c.judge(c.peer.Len() - 1)
+		return
+	}
 	c.fenceAndJudge()
 	if c.fail == nil && active && !c.dead && !c.eof {
 		r := c.peer.Response(sid)
 		if r.Ended {
 			c.st.responses++
-			if r.Status != "200" || string(r.Body) != "ok" {
-				c.violate("response-corrupt", "stream %d: released handler wrote 200/\"ok\", client received status %q body %q", sid, r.Status, r.Body)
+			want := []byte("ok")
+			if sid%6 == 1 && !c.bigMode[sid] {
+				want = bigBody[:4086+int(sid/6)%11]
+			}
+			if r.Status != "200" || !bytes.Equal(r.Body, want) {
+				c.violate("response-corrupt", "stream %d: released handler wrote 200 and a %d-byte body, client received status %q and %d bytes", sid, len(want), r.Status, len(r.Body))
 			}
 		}
 	}
